@@ -38,7 +38,8 @@ class C16(WrapHarness):
         q = tier == 'quick'
         return ('paragraphs of 2..%d words of 1-2 symbolic lowercase letters, symbolic indents of <= %d prefix characters, '
                 'two independent symbolic widths 0..2^16, both algorithms, all four line-ending conversions, with and '
-                'without trailing line ending; only fills of >= 2 lines (as the property states)' % (3 if q else 4, 1 if q else 2))
+                'without trailing line ending; only fills of >= 2 lines (as the property states); o1 and o2 also with '
+                'different algorithms (optimal-fit -> first-fit and back); plus paragraph templates of 6-8 words' % (3 if q else 4, 1 if q else 2))
 
     def run(self, I, cfg):
         para = gen_paragraph(I, cfg['k'], tmpl=cfg.get('ptmpl'))
